@@ -28,28 +28,40 @@ Verdict(r) ==
       sat  == [n \in all |-> Sat3(r, n, r.formula)]
       S    == { n \in all : sat[n] = "T" }
       nk   == Len(r.keys)
+      sh   == r.shown                                         \* leading keys that are selected
       want == { KeyTuple(r, n) : n \in S }
       rows == r.obs.q.rows
-      wellformed == \A i \in 1 .. Len(rows) : Len(rows[i]) = nk + Len(r.fns)
-      got  == [i \in 1 .. Len(rows) |-> SubSeq(rows[i], 1, nk)]
+      wellformed == \A i \in 1 .. Len(rows) : Len(rows[i]) = sh + Len(r.fns)
+      got  == [i \in 1 .. Len(rows) |-> SubSeq(rows[i], 1, sh)]
       gotSet == { got[i] : i \in 1 .. Len(rows) }
       G(t) == { n \in S : KeyTuple(r, n) = t }
-      res  == [i \in 1 .. Len(rows) |-> [j \in 1 .. Len(r.fns) |-> AggOk(r, G(got[i]), r.fns[j], r.col, rows[i][nk + j])]]
+      \* all keys shown: the row names its group
+      res  == [i \in 1 .. Len(rows) |-> [j \in 1 .. Len(r.fns) |-> AggOk(r, G(got[i]), r.fns[j], r.col, rows[i][sh + j])]]
       badAgg == \E i \in 1 .. Len(rows), j \in 1 .. Len(r.fns) : res[i][j] = "F"
+      \* some key hidden (exact aggregates only): the rows, as a bag, are the groups' rows.  M[i] = groups row i can stand for
+      M == [i \in 1 .. Len(rows) |-> { t \in want : SubSeq(t, 1, sh) = got[i]
+                                                    /\ \A j \in 1 .. Len(r.fns) : AggOk(r, G(t), r.fns[j], r.col, rows[i][sh + j]) = "T" }]
+      R(t) == { i \in 1 .. Len(rows) : t \in M[i] }
+      bagOk == /\ \A i \in 1 .. Len(rows) : M[i] # {}
+               /\ \A t \in want : Cardinality(R(t)) = Cardinality({ u \in want : R(u) = R(t) })
       o == r.order
-      pos == IF o.by = "key" THEN o.i ELSE nk + o.i
-      numeric == IF o.by = "key" THEN NumericKey(r.keys[o.i]) ELSE TRUE
-      sorted == o.by = "none" \/
-                \A i \in 1 .. Len(rows) - 1 :
-                   LET c == CellCmp(rows[i][pos], rows[i + 1][pos], numeric) IN IF o.desc THEN c >= 0 ELSE c <= 0
+      Pos(x) == IF x.by = "key" THEN x.i ELSE sh + x.i
+      Numeric(x) == IF x.by = "key" THEN NumericKey(r.keys[x.i]) ELSE TRUE
+      Dir(x, c) == IF x.desc THEN 0 - c ELSE c
+      RowCmp(i, k) == LET c1 == Dir(o[1], CellCmp(rows[i][Pos(o[1])], rows[k][Pos(o[1])], Numeric(o[1]))) IN
+                      IF c1 # 0 \/ Len(o) = 1 THEN c1 ELSE Dir(o[2], CellCmp(rows[i][Pos(o[2])], rows[k][Pos(o[2])], Numeric(o[2])))
+      sorted == o = <<>> \/ \A i \in 1 .. Len(rows) - 1 : RowCmp(i, i + 1) <= 0
       y == IF r.obs.q.timed_out THEN "timeout"
            ELSE IF r.obs.q.panic THEN "crash"
            ELSE IF r.obs.q.status = 2 THEN "rejected-as-malformed"
            ELSE IF ~wellformed THEN "wrong-cell-count"
-           ELSE IF Len(rows) # Cardinality(gotSet) THEN "duplicate-group"
-           ELSE IF gotSet \ want # {} THEN "unexpected-group"
-           ELSE IF want \ gotSet # {} THEN "missing-group"
-           ELSE IF badAgg THEN "wrong-aggregate"
+           ELSE IF sh = nk /\ Len(rows) # Cardinality(gotSet) THEN "duplicate-group"
+           ELSE IF sh = nk /\ gotSet \ want # {} THEN "unexpected-group"
+           ELSE IF sh = nk /\ want \ gotSet # {} THEN "missing-group"
+           ELSE IF sh = nk /\ badAgg THEN "wrong-aggregate"
+           ELSE IF sh < nk /\ Len(rows) < Cardinality(want) THEN "missing-group"
+           ELSE IF sh < nk /\ Len(rows) > Cardinality(want) THEN "unexpected-group"
+           ELSE IF sh < nk /\ ~bagOk THEN "wrong-aggregate"
            ELSE IF ~sorted THEN "not-sorted"
            ELSE "ok"
   IN [id |-> r.id, ok |-> (y = "ok"), class |-> r.class, why |-> y,
